@@ -68,6 +68,9 @@ func scenarios(tier string) []*vx.Scenario {
 		for _, c := range enumConfigs() {
 			more = append(more, liveScenarios(c, "quick")...)
 			more = append(more, liveScenarios(c, "thorough")...)
+			for _, lc := range slowLinkCases(c) {
+				more = append(more, liveScenario(lc, 0))
+			}
 			for _, dc := range deadCases(c, 12) {
 				more = append(more, deadScenario(dc, 0))
 			}
@@ -87,7 +90,7 @@ func scenarios(tier string) []*vx.Scenario {
 }
 
 // runCase executes one enumerated case once at the default schedule and files what it found.
-func runCase(sc *vx.Scenario, tier string, detail any, r *vx.Report) (res vx.Result, ok bool) {
+func runCase(sc *vx.Scenario, tier string, detail any, r *vx.Report, observeOnly bool) (res vx.Result, ok bool) {
 	var final func() vx.Result
 	e := vsched.Run(vsched.Options{Horizon: sc.Horizon}, func(e *vsched.Exec) { final = sc.Body(e) })
 	r.Evaluations++
@@ -110,6 +113,9 @@ func runCase(sc *vx.Scenario, tier string, detail any, r *vx.Report) (res vx.Res
 	}
 	if e.Deadlock != "" {
 		res.Violate("deadlock while heartbeating over a faulty link", "%s", e.Deadlock)
+	}
+	if observeOnly {
+		return res, true // whatever happens with a misbehaving peer is written to the evidence, never judged
 	}
 	for _, v := range res.Violations {
 		r.Violate(v.Key, "["+sc.Name+"] "+v.Msg, map[string]any{"scenario": sc.Name, "picks": []int{}, "tier": tier, "case": detail, "schedule": "default schedule (no deviation), one execution"})
@@ -141,7 +147,7 @@ func enumerated(tier string, r *vx.Report) {
 		for _, dc := range cases {
 			sc := deadScenario(dc, 0)
 			dc.Cfg = c.String()
-			res, ok := runCase(sc, tier, dc, r)
+			res, ok := runCase(sc, tier, dc, r, false)
 			if !ok {
 				continue
 			}
@@ -165,7 +171,7 @@ func enumerated(tier string, r *vx.Report) {
 		for _, nc := range narrowCases(c) {
 			sc, _ := narrowScenario(nc)
 			nc.Cfg = c.String()
-			res, ok := runCase(sc, tier, nc, r)
+			res, ok := runCase(sc, tier, nc, r, false)
 			if !ok {
 				continue
 			}
@@ -182,14 +188,19 @@ func enumerated(tier string, r *vx.Report) {
 	var worst time.Duration
 	worstCase, nDup, nLate := "", 0, 0
 	dupObs := map[string]any{}
+	anomalies := []string{}
 	for _, c := range enumConfigs() {
 		var w time.Duration
 		for _, nc := range dupCases(c) {
 			sc, obs := narrowScenario(nc)
-			if _, ok := runCase(sc, tier, nc, r); !ok {
+			res, ok := runCase(sc, tier, nc, r, true)
+			if !ok {
 				continue
 			}
 			nDup++
+			for _, v := range res.Violations {
+				anomalies = append(anomalies, sc.Name+": "+v.Key)
+			}
 			if len(obs.closes) == 0 {
 				dupObs[sc.Name] = "never detected within the run"
 				nLate++
@@ -215,6 +226,33 @@ func enumerated(tier string, r *vx.Report) {
 		"worst_excess_over_I_plus_T_s": worst.Seconds(),
 		"worst_case":                   worstCase,
 		"per_config":                   dupObs,
+		"anomalies":                    anomalies,
+	}
+
+	// ---- slow link: observation only
+	slow := map[string]any{}
+	nSlow, nSlowKilled := 0, 0
+	for _, c := range enumConfigs() {
+		per := map[string]any{}
+		for _, lc := range slowLinkCases(c) {
+			sc := liveScenario(lc, 0)
+			res, ok := runCase(sc, tier, lc, r, true)
+			if !ok {
+				continue
+			}
+			nSlow++
+			if len(res.Violations) > 0 {
+				nSlowKilled++
+				per["latency_per_leg="+lc.LatName] = "disconnected: " + res.Outcome
+			} else {
+				per["latency_per_leg="+lc.LatName] = "survived"
+			}
+		}
+		slow[c.String()] = per
+	}
+	r.Extra["slow_link_observation"] = map[string]any{
+		"note":  "observation, never a verdict (the property does not range over network latency): idle live peer for 5*(I+T) over a link with the given latency per leg; the round trip stays below pingTimeout in every case. The Go client POSTs its pong from inside the poll loop, so its next poll leaves one round trip late; when 2*latency >= pingInterval the ping waits in the server's queue and the server's pong wait becomes 4*latency - pingInterval, which can exceed pingTimeout although the peer answers at once (only possible when pingInterval < pingTimeout)",
+		"cases": nSlow, "disconnected": nSlowKilled, "per_config": slow,
 	}
 
 	if len(r.Samples) > 2 {
@@ -224,8 +262,8 @@ func enumerated(tier string, r *vx.Report) {
 		r.Sample(s)
 	}
 	r.Sample(map[string]any{"part": "duplicated pong (observation only)", "case": worstCase, "observed": fmt.Sprintf("death noticed %v later than pingInterval+pingTimeout after the last pong", worst)})
-	r.DistinctNontriv += nDead + nNarrow + nDup
-	r.States += nDead + nNarrow + nDup
+	r.DistinctNontriv += nDead + nNarrow + nDup + nSlow
+	r.States += nDead + nNarrow + nDup + nSlow
 	r.DistinctOutcomes += len(outcomes)
 }
 
@@ -239,7 +277,7 @@ func main() {
 		Rule: "real eio client <-> real eio server over the in-process polling link, virtual time (exact latencies, early-timer deviations off). " +
 			"Dead peer: for every (pingInterval, pingTimeout) the link is black-holed before every request index of a 3-heartbeat run (both directions / responses only / after the request was served) and at every quarter-interval instant (both / responses only; also with an application sender on either side whose requests are in flight at the instant), one execution each at the default schedule, all nine configurations in both tiers, " +
 			"plus a subset (first pong POST, the poll after it, the tie t=I, a parked long poll) explored with thread-choice deviations from the fault on. " +
-			"Live peer: idle for 5*(I+T), a sender on either side at phase 0, I/4, I/2, 3I/4 of the ping schedule, and the same with a latency of T/8 per leg, explored with thread-choice deviations over the whole run. " +
+			"Live peer: idle for 5*(I+T), a sender on either side at phase 0, I/4, I/2, 3I/4 of the ping schedule, and the same with a latency of T/8 per leg, explored with thread-choice deviations over the whole run (quick: bound 1; thorough: bound 2, except that a sender firing at the very instant of every ping gets bound 1 over the whole run plus bound 2 inside a window of three heartbeat periods; the dead-peer subset is explored to bound 2 / 3). " +
 			"Narrow: the server socket against a hand-played polling client that withholds pong k=1..3 after answering the earlier ones with delay 0, T/2, T-1ms. " +
 			"distinct_nontrivial = deviating schedules + enumerated fault positions in which the fault was injected + narrow cases",
 		Scenarios: scenarios,
